@@ -71,36 +71,7 @@ def single_step_cases(ctx):
     ctx.exhaustive["single-step-state-x-message-x-payload"] = count
 
 
-def unknown_options() -> list[dict]:
-    """Non-default settings of every Config option this harness does not know (an option added since the properties were
-    written): 'whatever state the controller is in' includes how it was configured."""
-    import dataclasses
-
-    from aiomysensors.gateway import Config
-
-    known = {"metric", "persistence_file"}
-    settings: list[dict] = []
-    try:
-        fields = dataclasses.fields(Config)
-    except TypeError:
-        return settings
-    for field in fields:
-        if field.name in known:
-            continue
-        default = field.default if field.default is not dataclasses.MISSING else None
-        if isinstance(default, bool):
-            settings.append({field.name: not default})
-        elif isinstance(default, int):
-            settings += [{field.name: value} for value in (0, 1, default * 2 + 1) if value != default]
-        elif isinstance(default, float):
-            settings += [{field.name: value} for value in (0.0, default / 2, default * 10) if value != default]
-        elif isinstance(default, str):
-            settings += [{field.name: value} for value in ("", default + "x")]
-        elif default is None and field.type in ("bool | None", "bool"):
-            settings += [{field.name: True}, {field.name: False}]
-        elif default is None and str(field.type).startswith(("int", "float")):
-            settings += [{field.name: value} for value in (0, 1, 5, 1000)]
-    return settings
+from ..harness import unknown_options  # noqa: E402
 
 
 def random_cases(ctx):
